@@ -118,7 +118,7 @@ static int cmp_ev(const void* a, const void* b) { const uint64_t* x = a; const u
 static uint64_t n_rounds(void) { return pv_scaled(3, 5) * 2; }
 static void run_rounds(uint64_t idx, pv_rng* rng) {
     int nt = (idx & 1) ? 16 : 8;
-    int nops = (int)pv_scaled(1500, 20000); if (nt == 16) nops = nops * 2 / 3;
+    int nops = (int)pv_scaled(4000, 20000); if (nt == 16) nops = nops * 2 / 3;
     static tctx solo[MAXT], conc[MAXT];
     pv_world* mainw = pv_w;
     uint64_t base = pv_rand64(rng);
